@@ -41,8 +41,39 @@ func isCellType(t types.Type) bool {
 	if t == nil {
 		return false
 	}
+	if _, ok := t.Underlying().(*types.Pointer); ok && len(cellTypes) > 0 {
+		return true // a slice of pointers: the cell holds the pointer identity itself
+	}
 	k, _ := cellKey(t)
 	return k != "" && cellTypes[k]
+}
+
+// decodeElem / encodeElem: cell content <-> element value (struct by accessor functions, pointer by identity).
+func (fc *FnCtx) decodeElem(id T, t types.Type, host T, pc T) Val {
+	if pt, ok := t.Underlying().(*types.Pointer); ok {
+		return VPtr{ID: id, Obj: -1, Elem: pt.Elem()}
+	}
+	return fc.decodeCell(id, t, host, pc)
+}
+
+func (fc *FnCtx) encodeElem(v Val, t types.Type) T {
+	if _, ok := t.Underlying().(*types.Pointer); ok {
+		switch x := v.(type) {
+		case VPtr:
+			return x.ID
+		case VInt:
+			return x.T
+		case VOpaque:
+			return x.ID
+		case VElemPtr:
+			// &s[i] stored in a slice of pointers: identity not tracked
+			id := fc.fresh("eptr", SInt)
+			fc.axiom(lt(mkInt(0), id))
+			return id
+		}
+		panic(unsupported(fmt.Sprintf("pointer cell write of %T", v)))
+	}
+	return fc.encodeCell(v, t)
 }
 
 // isHeapElem: element types whose slices live in the modelled heap.
@@ -205,11 +236,11 @@ func (fc *FnCtx) onCells(st *State, f func()) {
 
 func (fc *FnCtx) cellRead(st *State, s VSlice, i T) Val {
 	id := fc.define(sel(sel(st.cheap, s.Rgn), add(s.Off, i)), "cell")
-	return fc.decodeCell(id, s.Elem, s.Rgn, st.pc)
+	return fc.decodeElem(id, s.Elem, s.Rgn, st.pc)
 }
 
 func (fc *FnCtx) cellWrite(st *State, s VSlice, i T, v Val) {
-	id := fc.encodeCell(v, s.Elem)
+	id := fc.encodeElem(v, s.Elem)
 	cell := add(s.Off, i)
 	na := store(sel(st.cheap, s.Rgn), cell, id)
 	st.cheap = fc.define(store(st.cheap, s.Rgn, na), "C")
@@ -231,7 +262,7 @@ func (fc *FnCtx) cellAppend(st *State, c *ast.CallExpr, dst VSlice) Val {
 	}
 	tmp := fc.fresh("elems", SArr)
 	for i, a := range c.Args[1:] {
-		fc.axiom(eq(sel(tmp, mkInt(int64(i))), fc.encodeCell(fc.eval(st, a), dst.Elem)))
+		fc.axiom(eq(sel(tmp, mkInt(int64(i))), fc.encodeElem(fc.eval(st, a), dst.Elem)))
 	}
 	fc.onCells(st, func() { r = fc.appendSeq(st, dst, VStr{tmp, mkInt(0), mkInt(int64(len(c.Args) - 1))}) })
 	return r
